@@ -98,3 +98,9 @@ chk("C07", "exploration",
     "Axes are swept one at a time; sizes beyond 40 are not explored.",
     "bounded exhaustive enumeration of well-formed profiles along each size axis, on the real compile path",
     "DESIGN.md §3 C07")
+
+chk("C13", "exploration",
+    "Deviation-bounded exhaustive enumeration of special characters in profile text: every (slot, token, position) for 9 slots x 33 tokens x 3 positions (bound 1), and in thorough every ordered token pair within a slot and every pair across two slots (bound 2); each profile must compile, and the report must show the names verbatim, the message as the reference rendering defines it, and the same set of reported nodes as the plain text.",
+    "YAML is emitted with double-quoted scalars and parsed back with yaml.v3 to confirm the intended string; placeholders refer to single-valued properties.",
+    "deviation-bounded exhaustive enumeration of (slot x special token x position) against a reference rendering, on the real implementation",
+    "DESIGN.md §3 C13")
